@@ -22,7 +22,9 @@ RULE = ("(a) in-process: 10^5-10^6 argument vectors from a grammar over all git 
 TRACE_BUILTIN = re.compile(r"trace: (?:built-in: git |exec: git-)(\S+)")
 TRACE_RUN = re.compile(r"trace: run_command: git-([A-Za-z0-9_-]+)")
 ALIAS = re.compile(r"trace: alias expansion: (\S+) => (.*)")
-ALIASES = [("st", "status -s"), ("lg", "log --oneline -3"), ("rec", "st"), ("sh", "!echo from-shell"), ("q", "log -1 --format='%s %an'"), ("loop1", "loop2"), ("loop2", "loop1")]
+ALIASES = [("st", "status -s"), ("lg", "log --oneline -3"), ("rec", "st"), ("sh", "!echo from-shell"), ("q", "log -1 --format='%s %an'"), ("loop1", "loop2"), ("loop2", "loop1"),
+           # chains in which a non-final link contributes a global option (-p is the one git allows an alias to carry)
+           ("lg2", "log --oneline -2"), ("pg", "-p lg2"), ("ppg", "pg -1"), ("pst", "--paginate rec")]
 
 
 def make_scratch():
@@ -135,9 +137,35 @@ def main(tier, seed, replay=None):
             rep.counters["alias_compared"] += 1
             if not al or any(rhs.startswith("!") for _, rhs in al) or "loop" in err or "recursive" in err:
                 continue   # shell alias / alias loop: git-ai must bail out, any answer but a wrong command is fine
-            expected = al[-1][1].split()[0]
+            expected = [t for t in al[-1][1].split() if not t.startswith("-")][0]
             if a["resolved_command"] and a["resolved_command"] != expected:
                 rep.direct_violation("C18/alias-resolution-differs", dict(argv=a["argv"], git_ai=a["resolved_command"], git_final=expected, expansions=al))
+                continue
+            # the whole expansion. Command and arguments: git's own final dispatch line (`trace: built-in: git <cmd> <args>`). Global
+            # options: the user's, followed by those each alias of the chain contributes (git's `alias expansion` trace line is not
+            # usable for values that start with an option: it prints the shifted vector, e.g. `pg => lg2 lg2`)
+            import shlex
+            m = re.search(r"trace: built-in: git (.*)", err)
+            if not m or a.get("resolved_argv") is None or a["resolved_command"] not in a["resolved_argv"]:
+                continue
+            try:
+                git_final = shlex.split(m.group(1))
+            except ValueError:
+                continue
+            i = a["resolved_argv"].index(a["resolved_command"])
+            got_globals, got_cmd = a["resolved_argv"][:i], a["resolved_argv"][i:]
+            cfg = dict(ALIASES)
+            first = al[0][0]
+            exp_globals = list(a["argv"][:a["argv"].index(first)]) if first in a["argv"] else None
+            for lhs, _ in al:
+                for t in shlex.split(cfg.get(lhs, "")):
+                    if not t.startswith("-"):
+                        break
+                    if exp_globals is not None:
+                        exp_globals.append(t)
+            rep.counters["alias_full_expansions_compared"] += 1
+            if got_cmd != git_final or (exp_globals is not None and got_globals != exp_globals):
+                rep.direct_violation("C18/alias-expansion-differs", dict(argv=a["argv"], git_ai=a["resolved_argv"], git_command_line=git_final, expected_global_options=exp_globals, expansions=al))
         # (b2) the alias tokenizer against git's own split of the same value (the proxy hands git the expansion, finding D41, so a
         # tokenization difference changes what git runs)
         import shlex
